@@ -662,6 +662,87 @@ def gen_spec(rng, decay, big=False):
     return spec
 
 
+def gen_boundary(rng):
+    """legal boundary / falsy parameter values and degenerate molecules, one to three per case"""
+    spec = gen_spec(rng, rng.random() < 0.4)
+    p, atoms = spec['params'], spec['atoms']
+    tweaks = rng.sample(['minf=base', 'minf_just_below_base', 'base=0', 'minf=0', 'upper=0', 'lower=upper', 'sep=0',
+                         'sep_from_force_field', 'selection_empty', 'selection_one_atom', 'one_residue', 'chain_none_empty',
+                         'regions_touching', 'regions_reversed_negative', 'coincident_atoms', 'upper=0', 'minf=base',
+                         'lower=upper', 'two_atoms'], rng.choice([1, 2, 2, 3]))
+    step = 32
+    for t in tweaks:
+        if t == 'two_atoms':
+            del atoms[2:]
+            keys = {a['key'] for a in atoms}
+            spec['edges'] = [e for e in spec['edges'] if e[0] in keys and e[1] in keys]
+            spec.pop('existing', None)
+        elif t == 'minf=base':
+            p['minf'] = p['base']
+        elif t == 'minf_just_below_base':
+            p['minf'] = math.nextafter(p['base'], 0.0)
+        elif t == 'base=0':
+            p['base'] = rng.choice([0.0, 0])
+            p['minf'] = rng.choice([0.0, 0, 0.25])
+        elif t == 'minf=0':
+            p['minf'] = rng.choice([0.0, 0])
+        elif t == 'upper=0':
+            p['U'] = 0
+        elif t == 'lower=upper':
+            p['lo'] = p['U'] / UNIT
+            if p['a'] == 0.0 and rng.random() < 0.7:
+                p['a'] = rng.choice([0.5, 1.0, 2.5])
+                p['pw'] = rng.choice([1, 2, 3])
+        elif t == 'sep=0':
+            p['sep'] = 0
+            if p['via'] == 'processor_ffvars':
+                p['via'] = 'processor'
+        elif t == 'sep_from_force_field':
+            p['via'] = 'processor_ffvars'
+            p['ffvars'] = rng.choice([{}, {'elastic_network_res_min_dist': 0}, {'elastic_network_res_min_dist': 1},
+                                      {'res_min_dist': 4}, {'elastic_network_bond_type': 0, 'elastic_network_res_min_dist': 0}])
+        elif t == 'selection_empty':
+            p['names'] = rng.choice([['XX'], [], ['']])
+            p['default_selector'] = False
+        elif t == 'selection_one_atom':
+            rng.choice(atoms)['name'] = 'ZZ'
+            p['names'] = ['ZZ']
+        elif t == 'one_residue':
+            a0 = atoms[0]
+            for a in atoms:
+                for k in ('chain', 'resid', 'resname', 'icode'):
+                    a[k] = a0[k]
+        elif t == 'chain_none_empty':
+            ids = rng.choice([[None, ''], [None, '', 'A'], ['', 'A'], [None, 'A']])
+            m = {}
+            for a in atoms:
+                a['chain'] = m.setdefault(a['chain'], rng.choice(ids))
+            p['dom'] = ['chain']
+        elif t == 'regions_touching':
+            lo_ = min(a['resid'] for a in atoms)
+            b = lo_ + rng.choice([1, 2, 3])
+            c = b + rng.choice([1, 2, 4])
+            p['dom'] = ['regions', rng.choice([[[lo_, b], [b, c]], [[lo_, b], [b + 1, c]], [[b, c], [lo_, b]],
+                                               [[lo_, c], [b, b]], [[b, b]], [[lo_, b], [lo_, b]]])]
+        elif t == 'regions_reversed_negative':
+            shift = min(a['resid'] for a in atoms) + rng.choice([3, 6, 10])
+            for a in atoms:
+                a['resid'] -= shift
+                if a.get('old') is not None:
+                    a['old'] -= shift
+            lo_ = min(a['resid'] for a in atoms)
+            p['dom'] = ['regions', rng.choice([[[lo_ + 3, lo_]], [[0, lo_]], [[-1, lo_ + 1], [2, 0]], [[lo_ + 2, lo_ - 5], [1, -1]]])]
+        elif t == 'coincident_atoms':
+            for _ in range(rng.choice([1, 2, 3])):
+                a, b = rng.choice(atoms), rng.choice(atoms)
+                if isinstance(a['pos'], list) and isinstance(b['pos'], list):
+                    b['pos'] = list(a['pos'])
+        chk.count('boundary_' + t)
+    if p['lo'] * UNIT > 4096 or p['U'] > 4096:
+        p['lo'] = 0.0
+    return spec
+
+
 # ----------------------------------------------------------------------------
 # run
 # ----------------------------------------------------------------------------
@@ -736,6 +817,8 @@ def evaluate(cid, spec, stream, real=None):
     chk.count('via_' + p['via'])
     chk.count('sep=%d' % p['sep'])
     chk.count('outcome_' + impl.split()[0])
+    if any(v[0] and v[1] and v[2] and v[3] and v[6] is not None and v[6] == p['minf'] for v in table.values()):
+        chk.count('cases_with_an_eligible_pair_exactly_on_minimum_force')
     n_at = sum(1 for v in table.values() if v[0] and v[5] == upper2_of(p))
     if n_at:
         chk.count('cases_with_selected_pair_exactly_at_cutoff')
@@ -767,6 +850,10 @@ rng = chk.rng('decay')
 N2 = 14000 if chk.thorough else 1400
 for i in range(N2):
     cases.append(('decay-%d' % i, gen_spec(rng, True, big=chk.thorough and i % 10 == 0), 'decay'))
+
+rng = chk.rng('boundary')
+for i in range(7000 if chk.thorough else 800):
+    cases.append(('boundary-%d' % i, gen_boundary(rng), 'boundary'))
 
 results = []
 for cid, spec, stream in cases:
@@ -827,8 +914,9 @@ def gen_ffvars(rng):
     return out
 
 
-def make_processor(cfg):
-    """a FRESH ApplyRubberBand from the configuration; returns (processor, region list handed to the factory)"""
+def make_processor(cfg, criterion=None, selector=None):
+    """a FRESH ApplyRubberBand from the configuration (criterion / selector: use these existing objects instead of
+    new ones); returns (processor, keyword arguments)"""
     kw = dict(lower_bound=cfg['lo'], upper_bound=cfg['U'] / UNIT, decay_factor=cfg['a'], decay_power=cfg['pw'],
               base_constant=cfg['base'], minimum_force=cfg['minf'])
     if not (cfg['names'] == ['BB'] and cfg['default_selector']):
@@ -845,6 +933,10 @@ def make_processor(cfg):
         regions[0] = (99999, 99999)
     elif cfg.get('pass_always'):
         kw['domain_criterion'] = ARB.always_true
+    if criterion is not None:
+        kw['domain_criterion'] = criterion
+    if selector is not None:
+        kw['selector'] = selector
     for key, name in (('rmd', 'res_min_dist'), ('bt', 'bond_type'), ('btv', 'bond_type_variable'),
                       ('rmdv', 'res_min_dist_variable')):
         if cfg[key] == 'None':
@@ -1000,6 +1092,52 @@ def apply_proc(proc, spec):
     return exc, rubber, warns
 
 
+def one_application(proc, cfg, rng, j, errs):
+    """apply `proc` (built from `cfg`, maybe long ago, maybe sharing objects with others) to a new molecule; compare
+    with a FRESH processor built from cfg, judge with the criteria oracle; returns (tokens of the molecule for the
+    model, canonical result, resolved separation, any bond?, skip?)"""
+    g = gen_spec(rng, False)
+    ffvars = gen_ffvars(rng)
+    bt, rmd = expected_options(cfg, ffvars)
+    p = {'names': cfg['names'], 'U': cfg['U'], 'lo': cfg['lo'], 'a': cfg['a'], 'pw': cfg['pw'], 'base': cfg['base'],
+         'minf': cfg['minf'], 'sep': rmd, 'dom': cfg['dom'], 'via': 'history', 'bond_type': bt,
+         'expect_bt': bt, 'expect_sep': rmd, 'ffvars': ffvars}
+    spec = {'atoms': g['atoms'], 'edges': g['edges'], 'params': p}
+    sel = selected_atoms(spec)
+    ktab, skip = {}, False
+    exact = cfg['a'] == 0.0
+    if not exact:
+        pts = [pos_of(a) for a in sel if pos_of(a) is not None]
+        for x, pa in enumerate(pts):
+            for pb in pts[x + 1:]:
+                d2 = d2_of(pa, pb)
+                if d2 not in ktab:
+                    ktab[d2] = k_expected(p, d2)
+                    if ktab[d2] != ktab[d2] or near_thr(ktab[d2], p['minf']):
+                        skip = True
+        ktab.setdefault(0, k_expected(p, 0))
+    ktab_fn = (lambda d2, p=p: p['base']) if exact else (lambda d2, ktab=ktab, p=p: ktab[d2] if d2 in ktab else k_expected(p, d2))
+    exc, rubber, warns = apply_proc(proc, spec)
+    fresh, _ = make_processor(cfg)
+    fexc, frubber, fwarns = apply_proc(fresh, spec)
+    impl = canon_result(spec, exc, rubber, warns, ktab_fn)
+    fimpl = canon_result(spec, fexc, frubber, fwarns, ktab_fn)
+    if impl != fimpl:
+        errs.append('application %d of a reused processor gives %s; a fresh processor with the same arguments gives '
+                    '%s (force-field variables %r)' % (j + 1, clip(impl, 200), clip(fimpl, 200), ffvars))
+    table = criteria_table(spec, ktab_fn)
+    errs += ['application %d: %s' % (j + 1, e) for e in oracle(spec, exc, rubber, warns, True, table, ktab_fn,
+                                                                 sink=errs, prefix='application %d: ' % (j + 1))]
+    atoms_t = []
+    for a in spec['atoms']:
+        pos = a['pos']
+        atoms_t.append([a['key'], a.get('name'), a.get('chain'), a.get('resid'), a.get('resname'), a.get('icode'),
+                        a.get('old'), [] if pos in ('nan', 'nan2') else pos])
+    mol_t = [atoms_t, [list(e) for e in spec['edges']], [[k, v] for k, v in ffvars.items()],
+             [[d2] + frac(k) for d2, k in sorted(ktab.items())] if not exact else []]
+    return mol_t, impl, rmd, bool(rubber), skip
+
+
 rng = chk.rng('history')
 hist_lines, hist_meta = [], []
 for i in range(2500 if chk.thorough else 260):
@@ -1011,53 +1149,17 @@ for i in range(2500 if chk.thorough else 260):
     mols, impls, errs, skip, nontriv, finding = [], [], [], False, False, None
     seps = set()
     for j in range(n_app):
-        g = gen_spec(rng, False)
-        ffvars = gen_ffvars(rng)
-        bt, rmd = expected_options(cfg, ffvars)
-        p = {'names': cfg['names'], 'U': cfg['U'], 'lo': cfg['lo'], 'a': cfg['a'], 'pw': cfg['pw'], 'base': cfg['base'],
-             'minf': cfg['minf'], 'sep': rmd, 'dom': cfg['dom'], 'via': 'history', 'bond_type': bt,
-             'expect_bt': bt, 'expect_sep': rmd, 'ffvars': ffvars}
-        spec = {'atoms': g['atoms'], 'edges': g['edges'], 'params': p}
-        sel = selected_atoms(spec)
-        ktab = {}
-        exact = cfg['a'] == 0.0
-        if not exact:
-            pts = [pos_of(a) for a in sel if pos_of(a) is not None]
-            for x, pa in enumerate(pts):
-                for pb in pts[x + 1:]:
-                    d2 = d2_of(pa, pb)
-                    if d2 not in ktab:
-                        ktab[d2] = k_expected(p, d2)
-                        if ktab[d2] != ktab[d2] or near_thr(ktab[d2], p['minf']):
-                            skip = True
-            ktab.setdefault(0, k_expected(p, 0))
-        ktab_fn = (lambda d2, p=p: p['base']) if exact else (lambda d2, ktab=ktab, p=p: ktab[d2] if d2 in ktab else k_expected(p, d2))
-        exc, rubber, warns = apply_proc(proc, spec)
-        fresh, _ = make_processor(cfg)
-        fexc, frubber, fwarns = apply_proc(fresh, spec)
-        impl = canon_result(spec, exc, rubber, warns, ktab_fn)
-        fimpl = canon_result(spec, fexc, frubber, fwarns, ktab_fn)
-        if impl != fimpl:
-            errs.append('application %d of a reused processor gives %s; a fresh processor with the same arguments gives '
-                        '%s (force-field variables %r)' % (j + 1, clip(impl, 200), clip(fimpl, 200), ffvars))
+        mol_t, impl, rmd, any_bond, sk = one_application(proc, cfg, rng, j, errs)
+        skip = skip or sk
         if snapshot(proc) != snap0:
             errs.append('application %d changed the processor object: %r' % (j + 1, snapshot(proc)))
-        table = criteria_table(spec, ktab_fn)
-        errs += ['application %d: %s' % (j + 1, e) for e in oracle(spec, exc, rubber, warns, True, table, ktab_fn,
-                                                                     sink=errs, prefix='application %d: ' % (j + 1))]
-        atoms_t = []
-        for a in spec['atoms']:
-            pos = a['pos']
-            atoms_t.append([a['key'], a.get('name'), a.get('chain'), a.get('resid'), a.get('resname'), a.get('icode'),
-                            a.get('old'), [] if pos in ('nan', 'nan2') else pos])
-        mols.append([atoms_t, [list(e) for e in spec['edges']], [[k, v] for k, v in ffvars.items()],
-                     [[d2] + frac(k) for d2, k in sorted(ktab.items())] if not exact else []])
+        mols.append(mol_t)
         impls.append(impl)
         seps.add(rmd)
-        if rubber:
-            nontriv = True
+        nontriv = nontriv or any_bond
     if skip:
         chk.count('excluded_near_minimum_force')
+        LEN_CHECKS[:] = [c for c in LEN_CHECKS if c[0] is not errs]
         continue
     chk.count('history_applications=%d' % n_app)
     chk.count('history_rmd_%s' % ('none' if given(cfg['rmd']) is None else 'zero' if cfg['rmd'] == 0 else 'given'))
@@ -1069,6 +1171,59 @@ for i in range(2500 if chk.thorough else 260):
 hist_models = chk.drv.ask(hist_lines) if chk.lean_ok else [None] * len(hist_lines)
 flush_len_checks()
 for ln, (cid, impl, errs, nt), mo in zip(hist_lines, hist_meta, hist_models):
+    chk.case(cid, ln, impl, mo, errs, nt)
+
+# (b2) several processors sharing ONE criterion object (and often one selector object), applied interleaved
+rng = chk.rng('shared')
+sh_lines, sh_meta = [], []
+for i in range(1500 if chk.thorough else 170):
+    n_proc = rng.choice([2, 2, 3])
+    cfgs = [gen_proc(rng, rng.random() < 0.2) for _ in range(n_proc)]
+    dom0 = cfgs[0]['dom']
+    crit_obj = ({'always': ARB.always_true, 'chain': ARB.same_chain}.get(dom0[0])
+                or ARB.make_same_region_criterion([tuple(r) for r in dom0[1]]))
+    sel_obj = functools.partial(selectors.proto_select_attribute_in, attribute='atomname', values=list(cfgs[0]['names']))
+    procs, n_shared = [], 0
+    for k, c in enumerate(cfgs):
+        share = k == 0 or rng.random() < 0.75
+        kw = {}
+        if share:
+            c['dom'] = dom0
+            c['pass_always'] = True
+            kw['criterion'] = crit_obj
+            n_shared += 1
+            if rng.random() < 0.5:
+                c['names'], c['default_selector'] = list(cfgs[0]['names']), False
+                kw['selector'] = sel_obj
+        procs.append(make_processor(c, **kw)[0])
+    snaps = [snapshot(p) for p in procs]
+    cells = None
+    if getattr(crit_obj, '__closure__', None):
+        cells = repr([c.cell_contents for c in crit_obj.__closure__])
+    sched = [rng.randrange(n_proc) for _ in range(rng.choice([3, 4, 4, 5]))]
+    entries, impls, errs, skip, nontriv = [], [], [], False, False
+    for j, k in enumerate(sched):
+        mol_t, impl, rmd, any_bond, sk = one_application(procs[k], cfgs[k], rng, j, errs)
+        skip = skip or sk
+        entries.append([k, mol_t])
+        impls.append(impl)
+        nontriv = nontriv or any_bond
+        for q, (pr, sn) in enumerate(zip(procs, snaps)):
+            if snapshot(pr) != sn:
+                errs.append('application %d (processor %d) changed processor %d: %r' % (j + 1, k, q, snapshot(pr)))
+        if cells is not None and repr([c.cell_contents for c in crit_obj.__closure__]) != cells:
+            errs.append('application %d changed what the shared criterion holds: %s' % (j + 1, cells))
+    if skip:
+        chk.count('excluded_near_minimum_force')
+        LEN_CHECKS[:] = [c for c in LEN_CHECKS if c[0] is not errs]
+        continue
+    chk.count('shared_processors=%d_sharing_the_criterion=%d' % (n_proc, n_shared))
+    chk.count('shared_domain_' + dom0[0])
+    sh_lines.append(line('shared', [proc_tokens(c) for c in cfgs], entries))
+    sh_meta.append(('shared-%d' % i, ' ; '.join(impls), errs, nontriv and n_shared > 1 and len(set(sched)) > 1))
+sh_models = chk.drv.ask(sh_lines) if chk.lean_ok else [None] * len(sh_lines)
+flush_len_checks()
+for ln, (cid, impl, errs, nt), mo in zip(sh_lines, sh_meta, sh_models):
     chk.case(cid, ln, impl, mo, errs, nt)
 
 # (c) the region criterion on its own: overlapping, unordered, reused, caller mutates its list afterwards
